@@ -3,7 +3,8 @@
 Protocol lines (model `group`, lean/PygModel/GroupDriver.lean):
   (group lu <table> (L by*) <spelling>)        -> ok (T <listby> <its unlist> <table after>)
   (group gu <table> (L by*) <spelling>)        -> ok (T <groupby> <its ungroup> <table after>)
-  (group pv <table> (L x*) y z <agg>)          -> ok (T <pivot> <its unpivot> <table after>)     agg: none|len|first|last
+  (group pv <table> (L x*) y z <agg> [xs:s|xs:l|xs:t])  -> ok (T <pivot> <its unpivot> <table after>)     agg: none|len|first|last
+                                               xs: how x is spelled in BOTH calls (a plain string / a list / a tuple of names); absent: string when one name, else list
 """
 import datetime, math, functools, logging
 from collections import Counter
@@ -147,6 +148,12 @@ def gen_pivot(rng):
     return t, xn, agg, ykind
 
 
+def x_spelling(rng, xn):
+    """'' (the old default: a string when there is one name, else a list), ' xs:l' a list, ' xs:t' a tuple"""
+    r = rng.random()
+    return '' if r < 0.5 else ' xs:t' if r < 0.8 else ' xs:l'
+
+
 def generate(rng, tier):
     n = 1000 if tier == 'quick' else 30000
     for _ in range(n):
@@ -172,10 +179,12 @@ def generate(rng, tier):
             yield dict(tag='groupby-' + kind + gkind, lines=['(group gu %s %s sp:%s%s)' % (enc_table(t), enc_names(by), rng.choice('sl'), '' if grp is None else ' S:' + hexs(grp))])
         else:
             t, xn, agg, ykind = gen_pivot(rng)
+            # round l1 (review w1 finding 1): the SPELLING of x - a plain string (one name), a list or a tuple of names, the same in xyz and unpivot
+            sp = x_spelling(rng, xn)
             if rng.random() < 0.04:
-                yield dict(tag='pivot-missing', lines=['(group pv %s %s S:%s S:%s %s)' % (enc_table(t), enc_names(xn), hexs('y'), hexs('zz'), agg)])
+                yield dict(tag='pivot-missing', lines=['(group pv %s %s S:%s S:%s %s%s)' % (enc_table(t), enc_names(xn), hexs('y'), hexs('zz'), agg, sp)])
             else:
-                yield dict(tag='pivot-%s-y-%s' % (agg, ykind), lines=['(group pv %s %s S:%s S:%s %s)' % (enc_table(t), enc_names(xn), hexs('y'), hexs('z'), agg)])
+                yield dict(tag='pivot-%s-y-%s%s' % (agg, ykind, sp.replace(' xs:', '-x-')), lines=['(group pv %s %s S:%s S:%s %s%s)' % (enc_table(t), enc_names(xn), hexs('y'), hexs('z'), agg, sp)])
 
 
 def key_name(k):
@@ -211,7 +220,10 @@ def run_line(state, sx):
     if op == 'pv':
         x = [proto.dec_cell(a) for a in sx[3][1:]]
         y, z, agg = proto.dec_cell(sx[4]), proto.dec_cell(sx[5]), AGGS[sx[6]]
-        xs = x[0] if len(x) == 1 else x
+        sp = sx[7] if len(sx) > 7 else ('xs:s' if len(x) == 1 else 'xs:l')
+        if sp == 'xs:s' and len(x) != 1:
+            return 'bad-op'
+        xs = x[0] if sp == 'xs:s' else tuple(x) if sp == 'xs:t' else list(x)
         p = guarded(lambda: d.xyz(xs, y, z, agg))
         u = guarded(lambda: p.unpivot(xs, y, z))
         return 'ok (T %s %s %s)' % (enc_keyed(p), enc_keyed(u, ycol=y), enc_dictable(d))
@@ -439,10 +451,11 @@ def laws(rng, tier, ctx):
     m = 200 if tier == 'quick' else 3000
     for _ in range(m):
         t, xn, agg, ykind = gen_pivot(rng)
-        line = '(group pv %s %s S:%s S:%s none)' % (enc_table(t), enc_names(xn), hexs('y'), hexs('z'))
-        case = dict(tag='law-pivot-y-' + ykind, lines=[line])
+        sp = x_spelling(rng, xn)
+        line = '(group pv %s %s S:%s S:%s none%s)' % (enc_table(t), enc_names(xn), hexs('y'), hexs('z'), sp)
+        case = dict(tag='law-pivot-y-' + ykind + sp.replace(' xs:', '-x-'), lines=[line])
         d = dec_table(proto.parse(line)[2])
-        xs = xn[0] if len(xn) == 1 else xn
+        xs = tuple(xn) if sp == ' xs:t' else list(xn) if sp == ' xs:l' else xn[0] if len(xn) == 1 else xn
         count += 1
         n = len(d)
         # distinct y values (key equality of the statement) must get distinct column keys, different from the x names: otherwise no table can hold them
